@@ -11,31 +11,33 @@ const (
 	lvBody
 	lvDiv
 	lvP
-	lvBefore // p::before
-	lvMarker // p::marker
-	lvPage   // @page
-	lvMargin // @page { @top-left }
+	lvBefore     // p::before
+	lvMarker     // p::marker
+	lvPage       // @page
+	lvMargin     // @page { @top-left }
+	lvRootBefore // html::before: a generated pseudo-element OF THE ROOT (its element is the root, it has a parent)
 	nLevels
 )
 
-var levelNames = [...]string{"html", "body", "div", "p", "p::before", "p::marker", "@page", "@top-left"}
+var levelNames = [...]string{"html", "body", "div", "p", "p::before", "p::marker", "@page", "@top-left", "html::before"}
 
 // font-size ladder (px): every level has its own font size so that a length resolved against
 // the wrong element is visible.
-var ladder = [...]float64{10, 20, 30, 40, 50, 50, 50, 60}
+var ladder = [...]float64{10, 20, 30, 40, 50, 50, 50, 60, 70}
 
 // parentLevel[l] = level a style at level l inherits from (-1: none)
-var parentLevel = [...]int{-1, lvHTML, lvBody, lvDiv, lvP, lvP, lvHTML, lvPage}
+var parentLevel = [...]int{-1, lvHTML, lvBody, lvDiv, lvP, lvP, lvHTML, lvPage, lvHTML}
 
 // posLevel: position -> (element level, level of the second member of the access set)
 var posLevel = [nPos][2]int{
-	posRoot:   {lvHTML, lvBody}, // no parent: the child is accessed instead
-	posChild:  {lvBody, lvHTML},
-	posGrand:  {lvDiv, lvBody},
-	posBefore: {lvBefore, lvP},
-	posMarker: {lvMarker, lvP},
-	posPage:   {lvPage, lvHTML},
-	posMargin: {lvMargin, lvPage},
+	posRoot:       {lvHTML, lvBody}, // no parent: the child is accessed instead
+	posChild:      {lvBody, lvHTML},
+	posGrand:      {lvDiv, lvBody},
+	posBefore:     {lvBefore, lvP},
+	posMarker:     {lvMarker, lvP},
+	posPage:       {lvPage, lvHTML},
+	posMargin:     {lvMargin, lvPage},
+	posRootBefore: {lvRootBefore, lvHTML},
 }
 
 // spec is one case of block A/C: a document.
@@ -48,7 +50,17 @@ type spec struct {
 	// extra declarations (R6 and shared-rule documents)
 	extra  [nLevels][]string
 	noFont bool // leave the font-size ladder out
+	// rootPseudo: every generated pseudo-element of the ROOT element (html::before, ::after,
+	// ::marker, ::footnote-call, ::footnote-marker) is styled with a font size (7px) that no
+	// level of the ladder has. Those styles are computed with element == root, among the other
+	// pseudo-elements and before the page contexts: nothing of theirs may reach another style
+	// (in particular the root font size that rem refers to is the root ELEMENT's).
+	rootPseudo bool
 }
+
+// rootPseudoRule styles every pseudo-element the root can have; it comes first in the sheet so
+// that the rule of the html::before position wins over it.
+const rootPseudoRule = "html::before,html::after,html::marker,html::footnote-call,html::footnote-marker{content:'r';font-size:7px}"
 
 func (s *spec) decls() (d [nLevels][]string) {
 	p := s.p
@@ -117,6 +129,9 @@ func (s *spec) html() string {
 	}
 	var sb strings.Builder
 	sb.WriteString("<html" + attr(lvHTML) + "><head><style>")
+	if s.rootPseudo {
+		sb.WriteString(rootPseudoRule)
+	}
 	switch s.pos {
 	case posBefore:
 		sb.WriteString("p::before{" + strings.Join(carrier(lvBefore, "content:'z'"), ";") + "}")
@@ -126,6 +141,8 @@ func (s *spec) html() string {
 		sb.WriteString("@page{" + strings.Join(d[lvPage], ";") + "}")
 	case posMargin:
 		sb.WriteString("@page{" + strings.Join(d[lvPage], ";") + ";@top-left{" + strings.Join(carrier(lvMargin, "content:'m'"), ";") + "}}")
+	case posRootBefore:
+		sb.WriteString("html::before{" + strings.Join(carrier(lvRootBefore, "content:'r'"), ";") + "}")
 	}
 	sb.WriteString("</style></head><body" + attr(lvBody) + "><div" + attr(lvDiv) + "><p" + attr(lvP) + ">x</p></div></body></html>")
 	return sb.String()
@@ -150,7 +167,11 @@ func (s *spec) String() string {
 	if st == "" {
 		st = "<none>"
 	}
-	return fmt.Sprintf("pos=%s prop=%s state=%s parent=%s ctx=%s", posNames[s.pos], s.p.name, st, par, ctxNames[s.ctx])
+	rp := ""
+	if s.rootPseudo {
+		rp = " rootpseudo=foreign"
+	}
+	return fmt.Sprintf("pos=%s prop=%s state=%s parent=%s ctx=%s%s", posNames[s.pos], s.p.name, st, par, ctxNames[s.ctx], rp)
 }
 
 func (s *spec) features(more ...string) []string {
